@@ -18,6 +18,7 @@ def processCase (text : String) : Array String :=
     match c.scope with
     | "net" => checkNet c
     | "tour" => checkTour c
+    | "tourx" => checkTour c
     | "pipe" => checkPipe c
     | "trans" => checkTrans c
     | "sched" => checkSched c
